@@ -287,7 +287,7 @@ def _top_model(cx, port, p, mod, c):
 
 def rule_wr_top(cx, rep, port):
     p, mod, chain, sinks = _roles(cx, port)
-    tops = [c for c in chain if 'top_count' in roles.self_attrs_assigned(roles.methods(c)['__init__'])]
+    tops = [c for c in chain if roles.writer_kind(c) == 'top']
     if len(tops) != 1:
         raise Undecided('TOP writer (chain writer with a top_count attribute) not found', (p.files[mod], 0))
     c = tops[0]
@@ -564,7 +564,7 @@ def _uniq_model(cx, port, p, mod, c):
 
 def rule_wr_uniq(cx, rep, port):
     p, mod, chain, sinks = _roles(cx, port)
-    uniq = [c for c in chain if 'seen' in roles.self_attrs_assigned(roles.methods(c)['__init__'])]
+    uniq = [c for c in chain if roles.writer_kind(c) == 'uniq']
     if len(uniq) != 1:
         raise Undecided('DISTINCT writer (chain writer with a `seen` set) not found', (p.files[mod], 0))
     c = uniq[0]
@@ -750,7 +750,7 @@ def _ucnt_model(cx, port, p, mod, c):
 
 def rule_wr_ucnt(cx, rep, port):
     p, mod, chain, sinks = _roles(cx, port)
-    cands = [c for c in chain if 'records' in roles.self_attrs_assigned(roles.methods(c)['__init__'])]
+    cands = [c for c in chain if roles.writer_kind(c) == 'ucnt']
     if len(cands) != 1:
         raise Undecided('DISTINCT COUNT writer (chain writer with a `records` map) not found', (p.files[mod], 0))
     c = cands[0]
@@ -850,14 +850,107 @@ def _rule_wr_ucnt_shape(cx, rep, port, p, mod, c, ms, init):
     rep.decide(prefix is not None, _key(c, 'finish') + ' prefix', prefix if prefix is not None else fin, 'the multiplicity is put in front of the record', 'the multiplicity is not emitted as the first field')
 
 
+def _sort_model(cx, port, p, mod, c):
+    """the ORDER BY writer evaluated on six entries (keys 2 1 2 1 3 1, text keys b B a, and - JS - two entries of one input record), ascending
+    and descending, with a downstream writer that accepts everything / refuses the second record: problem text, or '' when everything
+    agrees, or None when the writer is outside the abstract interpreter"""
+    from .. import absexec as AX
+    ms = roles.methods(c)
+    init, wr, fin = ms.get('__init__'), ms.get('write'), ms.get('finish')
+    if init is None or wr is None or fin is None or len(init.args.args) < 3:
+        return None
+    py = port == 'py'
+    if len(wr.args.args) != (3 if py else 2):
+        return None
+    n = 0
+    truncates = []
+    try:
+        import itertools
+        extra_sets = list(itertools.product(*[[None, 2] for _ in init.args.args[3:]]))[:4]
+        for keys in ([2, 1, 2, 1, 3, 1], ['b', 'B', 'a', 'B'], [(1, 'x'), (1, 'X'), (0, 'z')], [(1,), (1,), (0,), (1,)], [3, 2, 2, 1], [1, 2, 2, 3], [(1, 'b'), (1, 'a'), (2, 'a')], [5, 5]):
+            for reverse in (False, True):
+                for refuse_second, extra in itertools.product((False, True), extra_sets):
+                    selfv, sub = AX.Abs('Self'), AX.Abs('Sub')
+                    recs = [['rec', 'r%d' % i] for i in range(len(keys))]          # records: distinct list objects
+                    if keys == [5, 5]:
+                        recs = [['rec', 'same'], ['rec', 'same']]                  # ... two of them with the same content
+                    forwarded, events = [], []
+
+                    def on_call(ex, node, fname, recv, args):
+                        short = node.func.attr if isinstance(node.func, ast.Attribute) else fname
+                        if recv is sub and short == 'write':
+                            forwarded.append(args[0] if len(args) == 1 else None)
+                            events.append('write')
+                            return not (refuse_second and len(forwarded) == 2)
+                        if recv is sub and short == 'finish':
+                            events.append('finish')
+                            return None
+                        return AX.NOT_HANDLED
+                    ex = AX.Explorer(p, mod, on_call=on_call, max_choices=1)
+                    ex.cls = c.name
+                    ex._script, ex._pos, ex.steps, ex.depth = [], 0, 0, 0
+                    ex.run = AX.Run()
+                    ex.call_fd(init, [selfv, sub, reverse] + list(extra))
+                    n += 1
+                    for i, (k, r) in enumerate(zip(keys, recs)):
+                        kparts = list(k) if isinstance(k, tuple) else [k]
+                        # the emitting side: python hands over (key, record); JS one entry [key components..., NR, record]; entries i and i+1 of
+                        # the tuple-key scenario come from one input record (same NR), as join matches and UNNEST values do
+                        got = ex.call_fd(wr, [selfv, (tuple(kparts) if isinstance(k, tuple) else k), r]) if py else ex.call_fd(wr, [selfv, kparts + [i if not isinstance(k, tuple) else 0, r]])
+                        if events:
+                            return 'write() of the ORDER BY writer forwards or finishes downstream before finish()'
+                        if got is not True:
+                            return 'write() of the ORDER BY writer returns {!r} instead of True'.format(got)
+                    ex.steps, ex.depth = 0, 0
+                    ex.call_fd(fin, [selfv])
+                    asc = [recs[i] for i in sorted(range(len(keys)), key=lambda i: keys[i])]
+                    want = list(reversed(asc)) if reverse else asc
+                    if refuse_second:
+                        want = want[:2]
+                    bound = [x for x in extra if x is not None]
+                    if bound and len(forwarded) < len(want) and not refuse_second:
+                        # a further constructor argument set to 2 (a bound pushed down to the sorter) and the sorter keeps records back
+                        if all(a is b for a, b in zip(forwarded, want)):
+                            truncates.append(list(extra))
+                            continue
+                    what = 'ORDER BY{} over the keys {}{}{}'.format(' DESC' if reverse else '', keys, ', the next writer refusing the second record' if refuse_second else '', ' (constructor arguments {})'.format(list(extra)) if bound else '')
+                    if events.count('finish') != 1 or events[-1] != 'finish':
+                        return '{}: the next writer is not finished exactly once, after the last record'.format(what)
+                    if len(forwarded) != len(want) or any(a is not b for a, b in zip(forwarded, want)):
+                        def names(rs):
+                            return [(x[1] if isinstance(x, (list, tuple)) and len(x) == 2 and x[0] == 'rec' else repr(x)) for x in rs]
+                        return '{}: records are emitted in the order {} instead of {} (stable ascending order by key - code-point order for text - and its exact reverse for DESC)'.format(what, names(forwarded), names(want))
+    except (Undecided, AX.Cut, AX._NeedChoice, AX.Raised, KeyError, IndexError, TypeError, AttributeError, ValueError) as e_:
+        import os
+        if os.environ.get('RBQL_VERIF_DEBUG'):
+            print('sort model gave up:', type(e_).__name__, e_)
+        return None
+    if truncates:
+        return 'UNDECIDED: constructed with the further argument(s) {} the ORDER BY writer emits only a prefix of the sorted records: whether every configuration that passes such a bound can afford it (a DISTINCT stage behind the sorter cannot) is not analysed'.format(truncates[0])
+    return ''
+
+
 def rule_wr_sort(cx, rep, port):
     p, mod, chain, sinks = _roles(cx, port)
-    cands = [c for c in chain if 'reverse_sort' in roles.self_attrs_assigned(roles.methods(c)['__init__'])]
+    cands = [c for c in chain if roles.writer_kind(c) == 'sort']
     if len(cands) != 1:
         raise Undecided('ORDER BY writer (chain writer with reverse_sort) not found', (p.files[mod], 0))
     c = cands[0]
     ms = roles.methods(c)
     wr, fin = ms['write'], ms['finish']
+    mres = _sort_model(cx, port, p, mod, c)
+    if mres is not None and mres.startswith('UNDECIDED: '):
+        rep.undecided(_key(c, 'finish') + ' sort', fin, mres[len('UNDECIDED: '):])
+        return
+    if mres is not None:
+        for k_, where in ((_key(c, 'write'), wr), (_key(c, 'finish') + ' sort', fin), (_key(c, 'finish') + ' desc', fin), (_key(c, 'finish') + ' emit', fin)):
+            rep.decide(mres == '', k_, where, 'buffers every record; finish() emits them in stable ascending key order, DESC as the exact reverse, stops when refused and finishes the next writer once (numeric, text and composite keys, ties, records of one input record, already ordered input; ascending and descending; accepting and refusing next writer)', mres)
+        return
+    with rep.as_fallback('SortedWriter is outside the abstract interpreter'):
+        _rule_wr_sort_shape(cx, rep, port, p, mod, chain, c, ms, wr, fin)
+
+
+def _rule_wr_sort_shape(cx, rep, port, p, mod, chain, c, ms, wr, fin):
     # write appends in arrival order
     apps = [n for n in walk_no_nested(wr) if isinstance(n, ast.Call) and isinstance(n.func, ast.Attribute) and n.func.attr in ('append', 'push') and dotted(n.func.value) == 'self.unsorted_entries']
     bad_ins = [n for n in walk_no_nested(wr) if isinstance(n, ast.Call) and isinstance(n.func, ast.Attribute) and n.func.attr in ('insert', 'unshift')]
